@@ -30,6 +30,9 @@ def bounds(tier):
     return params(tier)
 
 
+RULE += ' Round 9: every program of size <= 3 (thorough 4) also with managers whose exit functions go by other names (namespace `aliased`).'
+
+
 def legs(tier):
     from vlib.runner import Leg
     n = 4 if tier == "quick" else 16
